@@ -65,6 +65,17 @@ def descMesgOK : Bool :=
 
 theorem descMesgOK_true : descMesgOK = true := by decide +kernel
 
+/-- a field in semicircles (what the degrees option converts) is a plain sint32 scalar: no scale, no sub-fields, no
+components, no `typedef.Bool`; and no sub-field is in semicircles -/
+def semicirclesOK : Bool :=
+  profile.all fun pm => pm.fields.all fun p =>
+    (!(txt p.units == semicirclesTxt) ||
+      (p.bt == btSint32 && !p.array && !isScaledField p.scale p.offset && p.subs.isEmpty && !p.isBool)) &&
+    p.subs.all fun s => !(txt s.units == semicirclesTxt)
+
+set_option maxRecDepth 100000 in
+theorem semicirclesOK_true : semicirclesOK = true := by decide +kernel
+
 /-- no message name `MesgNum.String()` gives, and not "unknown", holds a separator or a quote: the message cell of a
 line is written as it is -/
 def mesgNamesPlainOK : Bool :=
